@@ -125,8 +125,11 @@ def cases(tier, rng):
 
 
 def oracle(case, lines):
-    if any(l.startswith(("PANIC", "ABORT", "TIMEOUT")) for l in lines):
-        return "panic/abort"
+    for op, l in zip(case.ops, lines[1:]):
+        if l.startswith("TIMEOUT"):
+            return f"`{op}` never returned (no answer for 45 s): the operation hangs"
+        if l.startswith(("PANIC", "ABORT")):
+            return f"panic/abort in `{op}`"
     if not case.expect:
         return None
     if case.expect[0] == "net":
